@@ -359,6 +359,10 @@ struct Session {
     out: Vec<u8>,
     copy_rows: usize,
     copy_fail_at_done: bool,
+    /// the COPY in progress was started by an Execute (extended protocol): no ReadyForQuery before Sync
+    copy_via_ext: bool,
+    /// send what is buffered without waiting for a flushing message (errors are sent at once)
+    force_flush: bool,
     copy_rest: VecDeque<String>,
     portals: BTreeMap<String, (String, Option<StmtDef>)>,
 }
@@ -590,6 +594,7 @@ impl Session {
             "COPY" => {
                 if up.contains("FROM STDIN") {
                     self.snap.in_copy_in = true;
+                    self.copy_via_ext = via == b'E';
                     self.copy_fail_at_done = sql.contains("failatdone");
                     self.copy_rows = 0;
                     self.emit(wire::copy_in_response());
@@ -685,6 +690,21 @@ impl Session {
         self.run_queue(&mut q);
     }
 
+    /// After an error that ends COPY IN: a COPY started by a simple Query is over (ReadyForQuery); one started
+    /// by Execute leaves the backend discarding messages until Sync, which then brings the ReadyForQuery.
+    fn after_copy_error(&mut self) {
+        if self.copy_via_ext {
+            self.snap.skip = true;
+            self.flush_now();
+        } else {
+            self.ready();
+        }
+    }
+
+    fn flush_now(&mut self) {
+        self.force_flush = true;
+    }
+
     fn run_queue(&mut self, q: &mut VecDeque<String>) {
         while let Some(s) = q.pop_front() {
             if s.is_empty() {
@@ -752,12 +772,17 @@ impl Session {
                     self.snap.in_copy_in = false;
                     self.error("23505", "duplicate key value violates unique constraint (COPY rejected at CopyDone)");
                     self.copy_rest.clear();
-                    self.ready();
+                    self.after_copy_error();
                     return Flow::Continue;
                 }
                 b'c' => {
                     self.snap.in_copy_in = false;
                     self.emit(wire::command_complete(&format!("COPY {}", self.copy_rows)));
+                    if self.copy_via_ext {
+                        // back in extended-query mode: ReadyForQuery comes with the Sync
+                        self.flush_now();
+                        return Flow::Continue;
+                    }
                     let mut rest = std::mem::take(&mut self.copy_rest);
                     self.run_queue(&mut rest);
                     return Flow::Continue;
@@ -766,7 +791,7 @@ impl Session {
                     self.snap.in_copy_in = false;
                     self.error("57014", "COPY from stdin failed");
                     self.copy_rest.clear();
-                    self.ready();
+                    self.after_copy_error();
                     return Flow::Continue;
                 }
                 b'H' | b'S' => return Flow::Continue,
@@ -775,7 +800,7 @@ impl Session {
                     self.snap.in_copy_in = false;
                     self.error("08P01", "unexpected message type during COPY from stdin");
                     self.copy_rest.clear();
-                    self.ready();
+                    self.after_copy_error();
                     return Flow::Continue;
                 }
             }
@@ -810,6 +835,9 @@ impl Session {
         match m.code {
             b'Q' => {
                 self.snap.skip = false;
+                // "a simple Query message also destroys the unnamed statement" (and the unnamed portal)
+                self.snap.stmts.remove("");
+                self.portals.remove("");
                 let sql = m.text();
                 if sql.contains("ERR!RAW") {
                     // echo the query bytes verbatim (as a server with SQL_ASCII encoding would)
@@ -1197,6 +1225,8 @@ async fn serve_inner(net: Shared, id: usize, addr: String, s: &mut DuplexStream)
         out: vec![],
         copy_rows: 0,
         copy_fail_at_done: false,
+        copy_via_ext: false,
+        force_flush: false,
         copy_rest: VecDeque::new(),
         portals: BTreeMap::new(),
     };
@@ -1314,6 +1344,7 @@ async fn serve_inner(net: Shared, id: usize, addr: String, s: &mut DuplexStream)
             Flow::Close | Flow::Hang | Flow::Delay(_) => true,
             Flow::Continue => {
                 matches!(m.code, b'Q' | b'S' | b'H' | b'c' | b'f')
+                    || std::mem::take(&mut sess.force_flush)
                     || sess.out.ends_with(&wire::copy_in_response())
                     || sess.out.len() >= 8192
             }
@@ -1378,6 +1409,8 @@ pub fn reference_replies(msgs: &[Msg], application_name: &str) -> Vec<Msg> {
         out: vec![],
         copy_rows: 0,
         copy_fail_at_done: false,
+        copy_via_ext: false,
+        force_flush: false,
         copy_rest: VecDeque::new(),
         portals: BTreeMap::new(),
     };
